@@ -82,18 +82,65 @@ def trace_line(r, c=None):
             "ev": r["ev"]}
 
 
-def run_harness(ws, args, cases=None, timeout=3000):
+class HarnessDied(Exception):
+    """the harness process - the code under test runs inside it - was ended by a signal"""
+
+    def __init__(self, rc, args, inflight, done):
+        Exception.__init__(self, "wsendpoint %s died rc=%s" % (args, rc))
+        self.rc, self.inflight, self.done = rc, inflight, done
+
+
+def run_harness(ws, args, cases=None, timeout=3000, env=None):
     data = None
     if cases is not None:
         data = "\n".join(json.dumps(c, separators=(",", ":")) for c in cases) + "\n"
-    p = run_bin(ws, args, stdin_data=data, timeout=timeout)
+    p = run_bin(ws, args, stdin_data=data, timeout=timeout, env=env)
+    out = parse_jsonl(p.stdout)
+    started = {r["c"]: r for r in out if r.get("start")}
+    res = [r for r in out if not r.get("start")]
+    if p.returncode < 0:
+        fin = set(r["c"] for r in res)
+        by = {c["c"]: c for c in cases} if cases is not None else {}
+        inflight = [by.get(c) or started[c].get("case") for c in started if c not in fin]
+        raise HarnessDied(p.returncode, args, [c for c in inflight if c], res)
     if p.returncode != 0:
         raise vlib.ToolError("wsendpoint %s failed rc=%s: %s" % (args, p.returncode, p.stderr[-2000:]))
-    res = parse_jsonl(p.stdout)
     fatal = [r for r in res if "fatal" in r]
     if fatal:
         raise vlib.ToolError("wsendpoint could not run %d connection(s): %s" % (len(fatal), fatal[0]["fatal"]))
     return res
+
+
+def harness_died(ctx, ws, e):
+    """SIGKILL / SIGABRT / SIGSEGV of the harness while connections were in flight: the code under test runs inside that
+    process, so the death is an observation. Every in-flight script is retried alone in a fresh process (with a smaller
+    address-space limit, so that a runaway allocation aborts quickly); a script that kills the process again is a
+    violation with that script as replay object. If none reproduces it is tool trouble (exit 2)."""
+    vlib.log("wsendpoint died with rc=%s; retrying the %d script(s) that were in flight, one per process" % (e.rc, len(e.inflight)))
+    hit = 0
+    items = []
+    for c in e.inflight[:48]:
+        c = dict(c)
+        c["c"] = 1
+        ctx.sample(brief(c))
+        try:
+            r = run_harness(ws, ["replay", "1"], [c], timeout=600, env={"VERIF_HARNESS_AS_GB": "8"})
+        except HarnessDied as e2:
+            hit += 1
+            ctx.violation("the process serving this connection was ended by signal %d (first run: %d) - memory exhaustion or an "
+                          "abort inside the endpoint; script %s" % (-e2.rc, -e.rc, json.dumps(brief(c))),
+                          {"kind": "ws-case", "case": c, "signal": -e2.rc})
+            continue
+        if r and r[0].get("mismatch"):
+            items.append((trace_line(r[0]), "behaviour %s (in flight when the harness died with signal %d): %s" % (
+                json.dumps(brief(c)), -e.rc, "; ".join(r[0]["mismatch"])),
+                {"kind": "ws-case", "case": c, "observed": r[0].get("obs"), "ev": r[0].get("ev")}))
+    hit += judge(ctx, items)[0]
+    if not hit:
+        raise vlib.ToolError("wsendpoint died with rc=%s and no in-flight script reproduces it alone (%d tried)" % (e.rc, len(e.inflight[:48])))
+    ctx.cov["evaluations"] += len(e.done)
+    ctx.cov["rule"] = "run cut short: the harness process died, the in-flight scripts were retried one per process"
+    return ctx.finish()
 
 
 def validate_traces(ctx, name, lines, work_id="c11-trace", timeout=3000, cfg="Trace_WsEndpoint.cfg"):
@@ -256,7 +303,13 @@ def replay_one(ctx, ws, path):
         return None
     c = dict(c)
     c["c"] = 1
-    res = run_harness(ws, ["replay", "1"], [c])
+    try:
+        res = run_harness(ws, ["replay", "1"], [c])
+    except HarnessDied as e:
+        ctx.sample(brief(c))
+        ctx.violation("the process serving this connection was ended by signal %d; script %s" % (-e.rc, json.dumps(brief(c))),
+                      {"kind": "ws-case", "case": c, "signal": -e.rc})
+        return ctx.finish()
     r = res[0]
     ctx.cov["evaluations"] += 1
     ctx.sample(brief(c))
@@ -366,7 +419,10 @@ def run(tier, replay):
             c["late"] = 300
         clist.append(c)
     step = 8
-    res = run_harness(ws, ["replay", "32", str(step), str(ctx.seed % step)], clist)
+    try:
+        res = run_harness(ws, ["replay", "32", str(step), str(ctx.seed % step)], clist)
+    except HarnessDied as e:
+        return harness_died(ctx, ws, e)
     if len(res) != len(clist):
         raise vlib.ToolError("harness ran %d of %d behaviours" % (len(res), len(clist)))
     skipped = [r for r in res if r.get("skipped")]
@@ -400,7 +456,10 @@ def run(tier, replay):
 
     # ---- 3. random scripts; logs validated by TLC
     n = 4000 if thorough else 400
-    rres = run_harness(ws, ["random", str(n), "12", str(70 * 1024), "16"])
+    try:
+        rres = run_harness(ws, ["random", str(n), "12", str(70 * 1024), "16"])
+    except HarnessDied as e:
+        return harness_died(ctx, ws, e)
     if len(rres) != n:
         raise vlib.ToolError("harness ran %d of %d random connections" % (len(rres), n))
     rres = [r for r in rres if not r.get("skipped")]      # after repeated hangs the rest is skipped; the hangs are rejected below
